@@ -177,16 +177,17 @@ class HasAccessibles(HasProperties):
                         self.log.debug('validate %r to datatype of %r', value, pname)
                         validate = self.parameters[pname].datatype.validate
                         try:
-                            new_value = validate(value)
+                            validated = new_value = validate(value)
                             for c in check_funcs:
-                                if c(self, value):
+                                if c(self, validated):
                                     break
                             if wfunc:
-                                new_value = wfunc(self, new_value)
+                                new_value = wfunc(self, validated)
                                 self.log.debug('write_%s(%r) returned %r', pname, value, new_value)
                                 if new_value is Done:  # TODO: to be removed when all code using Done is updated
                                     return getattr(self, pname)
-                                new_value = value if new_value is None else validate(new_value)
+                                # when the write method returns None, the validated value is taken
+                                new_value = validated if new_value is None else validate(new_value)
                         except SECoPError as e:
                             e.raising_methods.append(f'{self.name}.write_{pname}')
                             raise
